@@ -16,7 +16,7 @@ func init() {
 	Register(&Rule{
 		ID:    "R-FRAME",
 		Doc:   "on Decoder.readValue: (i) the success return after parseValue is guarded by a test of the remainder length, the sticky error or the value kind (a value ending exactly at the end of buffered data may be a prefix); (ii) the reader is called only after dec.err tested nil; (iii) every path to the read passes the first allocation or the tail compaction, and growth copies before replacing the buffer; (iv) inputOffset only ever increases by non-negative lengths",
-		Props: []string{"C11", "C06"},
+		Props: []string{"C11", "C06", "C05"},
 		Min:   map[string]int{"C11": 5},
 		Run:   runFrame,
 	})
@@ -28,7 +28,7 @@ func loadOfField(v ssa.Value, id string) bool {
 }
 
 func runFrame(c *core.Ctx) []core.Obligation {
-	b := newOb(c, "R-FRAME", "C11")
+	b := newOb(c, "R-FRAME", "C11", "C05")
 	fn := c.Lookup("json.(*Decoder).readValue")
 	if fn == nil {
 		b.und("anchor", "-", "json.(*Decoder).readValue not found")
